@@ -3,7 +3,7 @@
    enabled when scheduled does nothing) from s0.  Threads: TC b = consumer goroutine (b = the select case it
    picks), TU i = user thread i, TTick = the ticker.  All statements hold for every queue capacity, every
    bufio size, every family of user programs and every schedule unless a premise says otherwise. *)
-From Dastard Require Import Common.ZX C07.Conc C07.Model C07.Spec C07.Proofs C07.Variant.
+From Dastard Require Import Common.ZX C07.Conc C07.Model C07.Spec C07.Proofs C07.Variant C07.Run C07.Fast.
 
 (* At every moment the logical stream  file ++ (bytes in the consumer's hands: parked write, rest of the
    chunk, bufio buffer) ++ queued chunks  is the concatenation of the accepted Writes in acceptance order;
@@ -134,3 +134,21 @@ Theorem publish_checker_sound :
                   strm = hdr ++ concat (map fst (filter snd (combine recs flags))).
 Proof. exact pub_checker_means. Qed.
 Print Assumptions publish_checker_sound.
+
+(* Long streams (records of thousands of samples, a thousand of them queued) are compared run by run
+   without being expanded; when that fast path accepts, the checker proper accepts. *)
+Theorem pipe_fast_path_sound :
+  forall hdr recs strm hung,
+    pipe_fast hdr recs strm hung = true ->
+    C07_check_pipe (expand hdr) (map (fun rb => (expand (fst rb), snd rb)) recs) (expand strm) hung = true.
+Proof. exact pipe_fast_path_sound_lemma. Qed.
+Print Assumptions pipe_fast_path_sound.
+
+(* Several formats open on one channel: what the per-file checker accepts - at every return of
+   DataPublisher.Flush / SetPause the file is the header followed by ALL records written so far. *)
+Theorem flush_checker_sound :
+  forall hdr recs snaps,
+    C07_check_flush hdr recs snaps = true ->
+    forall n s, In (n, s) snaps -> s = hdr ++ concat (zfirstn n recs).
+Proof. exact flush_checker_means. Qed.
+Print Assumptions flush_checker_sound.
